@@ -9,7 +9,7 @@ use trusttunnel::settings::*;
 use trusttunnel::shutdown::Shutdown;
 use trusttunnel::verif::vudp::{self, VDatagram};
 
-const ND: usize = 5;
+pub const ND: usize = 5;
 
 fn make_core() -> Core {
     let settings = Settings::builder()
